@@ -99,7 +99,7 @@ def install(I):
         I_.assume(z3.And(h.t >= 0, h.t < 24, m.t >= 0, m.t < 60))
         I_.ghost['last_h'], I_.ghost['last_m'] = h, m
         I_.ghost['clock_readings'] = I_.ghost.get('clock_readings', 0) + 1
-        return Opaque('datetime', attrs={'hour': h, 'minute': m})
+        return Opaque('datetime', methods={'strftime': lambda I2, o, a2, k2: I2.fresh('str', 'formatted_time')}, attrs={'hour': h, 'minute': m})
     module('datetime', datetime=Opaque('datetime_cls', methods={'now': lambda I_, o, a, k: dt_now(I_, a, k)}))
 
     # bisect: assumed contract on sorted sequences
